@@ -182,7 +182,7 @@ PROPS["C07"] = {
     "title": "Minimizer partition covers every k-mer exactly once with a true minimizer",
     "kani": lambda tier: kfam(["k_extend_right", "k_len"], tier, 2, 8),
     "verus": [("scan", None)],
-    "bounded": lambda tier: [("msp::verif::m_scan_p2", "P = Kmer2, k in [2,4], k <= m <= k+4, score table values in 0..2")] if tier == "thorough" else [],
+    "bounded": lambda tier: [("msp::verif::m_scan_p2_k3m6", "P = Kmer2, k = 3, m = 6, score table values in 0..2")] if tier == "thorough" else [],
     "design_ref": "DESIGN.md §6 C07",
     "undecided": [],
     "trust": VERUS_TRUST + [SEAM_NOTE,
@@ -199,7 +199,7 @@ PAIRED_KANI = {
     "verus:dnaslice::DnaStringSlice::fmt_display": "dna_string::verif::d_slice_render_3",
     "verus:nodeiter::NodeKmerIter::nth": "graph::verif::g_node_iter_seq",
     "verus:nodeiter::NodeKmerIter::next": "graph::verif::g_node_iter_seq",
-    "verus:scan::Scanner::scan": "msp::verif::m_scan_p2",
+    "verus:scan::Scanner::scan": "msp::verif::m_scan_p2_k3m6",
 }
 
 COMMON_TRUST = [
